@@ -34,7 +34,7 @@ def cases(tier, seed):
     for si, (p, s) in enumerate(SHAPES):
         for h in range(n):
             ops = [r.choice(OPS) for _ in range(r.randint(2, 7))]
-            cs.append({'primary': p, 'sub': s, 'ops': ops, 'derive_at': r.randint(0, max(0, len(ops) - 2)), 'h': h})
+            cs.append({'primary': p, 'sub': s, 'ops': ops, 'derive_at': r.randint(0, max(0, len(ops) - 2)), 'h': h, 'mode': 'held' if h % 3 else 'accessor'})
     return cs
 
 
@@ -127,13 +127,14 @@ def run_case(ctx, d):
         k = pool.pgpy_key(d['primary'], sub=d['sub'], fresh=True, uid='C07 user %d' % d['h'])
         other = sigwork.target_key()
         held = None
+        alive = []
         held_at = None
         held_tree_at_derivation = None
         extra_subs = ['ed25519_3', 'cv25519_2', 'ecdsa_p384_1']
         nuid = 0
         pw = None
         for i, op in enumerate(d['ops'] + ['end']):
-            if i == d['derive_at']:
+            if i == d['derive_at'] and d.get('mode') != 'accessor':
                 held = k.pubkey
                 held_at = i
                 held_tree_at_derivation = projection(bytes(k))
@@ -193,9 +194,14 @@ def run_case(ctx, d):
                 if cm:
                     cm.__enter__()
                 try:
-                    # derived from a copy, so that the private key stays linked to the twin that is being held
-                    kc = copy.copy(k)
-                    fresh = kc.pubkey
+                    if d.get('mode') == 'accessor':
+                        # the real accessor at every state, every twin it ever returned kept alive: each must be current when handed out
+                        fresh = k.pubkey
+                        alive.append(fresh)
+                    else:
+                        # derived from a copy, so that the private key stays linked to the twin that is being held
+                        kc = copy.copy(k)
+                        fresh = kc.pubkey
                     tree = check_public(ctx, fresh, names, dict(where, twin='fresh', state=sname))
                     if tree is not None:
                         dd = diff(tree, proj)
